@@ -10,85 +10,75 @@ import GoldilocksVerif.Lemmas.BridgeNttSize1
 open GoldilocksVerif Gen.NttGen GoldilocksVerif.BridgeNtt
 namespace GoldilocksVerif.HeapSafe
 
-/-- **`parcpy(dst, src, n, nt)`**: two distinct blocks with n words from the pointers; any `int` thread count -/
+/-- **`parcpy(dst, src, n, nt)`**: two distinct blocks with n words from the pointers; any `int` thread count.
+    The text of the function and of its lifted loop body is read through Lemmas/BridgeParcpyStep.lean (`chunk_top`, `parcpy_step`,
+    `chunk_len_simp`): no dependence on how the source spells the clamp of the thread count or the chunk length. -/
 theorem parcpy_safe (fuel : Nat) (hp : Heap) (dst src : Ptr) (n : Nat) (nt : Int) (hn8 : n * 8 < 2 ^ 64) (hnt : nt < 2 ^ 63)
     (hd : dst.off + n ≤ hp.ext dst.blk) (hsr : src.off + n ≤ hp.ext src.blk) (hne : dst.blk ≠ src.blk) :
     parcpy.Safe fuel hp dst src (bv n) nt := by
-  generalize ht : ParCopy.threads nt = t
-  have ht1 : 1 ≤ t := by rw [← ht]; exact ParCopy.threads_pos nt
-  have ht63 : t < 2 ^ 63 := by
-    rw [← ht]; unfold ParCopy.threads
+  have ht1 : 1 ≤ ParCopy.threads nt := ParCopy.threads_pos nt
+  have ht63 : ParCopy.threads nt < 2 ^ 63 := by
+    unfold ParCopy.threads
     by_cases h : nt < 1
     · rw [if_pos h]; omega
     · rw [if_neg h]; omega
-  have hclamp : I32.toU64 (if decide (nt < (1 : Int)) = true then (1 : Int) else nt) = bv t := by
-    rw [← ht]; unfold ParCopy.threads
-    by_cases h : nt < 1
-    · simp only [h, decide_true, if_true]; exact toU64_nat 1
-    · simp only [h, decide_false, Bool.false_eq_true, if_false]
-      obtain ⟨m, hm⟩ : ∃ m : Nat, nt = (m : Int) := ⟨nt.toNat, by omega⟩
-      subst hm
-      rw [toU64_nat, Int.toNat_natCast]
-  have hchunk : (bv n + bv t - 1#64) / bv t = bv ((n + t - 1) / t) := by
+  have hchunk : chunkBV (bv n) nt = bv ((n + ParCopy.threads nt - 1) / ParCopy.threads nt) := by
+    unfold chunkBV
     rw [bv_add, bv_one, bv_sub _ _ (by omega) (by omega), bv_div _ _ (by omega) (by omega)]
-  generalize hc : (n + t - 1) / t = ct at hchunk
+  generalize hc : (n + ParCopy.threads nt - 1) / ParCopy.threads nt = ct at hchunk
   have hctn : ct ≤ n := by
     rw [← hc]
     rcases Nat.eq_zero_or_pos n with h0 | h1
     · subst h0
-      have : (0 + t - 1) / t = 0 := Nat.div_eq_of_lt (by omega)
+      have : (0 + ParCopy.threads nt - 1) / ParCopy.threads nt = 0 := Nat.div_eq_of_lt (by omega)
       rw [this]
     · apply Nat.le_of_lt_succ
       apply (Nat.div_lt_iff_lt_mul (by omega)).mpr
-      have : n * 1 ≤ n * t := Nat.mul_le_mul_left _ ht1
+      have : n * 1 ≤ n * ParCopy.threads nt := Nat.mul_le_mul_left _ ht1
       rw [Nat.succ_mul]; omega
+  have hn8' : (bv n).toNat * 8 < 2 ^ 64 := by rw [bv_toNat n (by omega)]; exact hn8
+  have hct' : (bv ct).toNat ≤ (bv n).toNat := by rw [bv_toNat n (by omega), bv_toNat ct (by omega)]; exact hctn
+  -- the loop, for the chunk length `bv ct`
+  have hloop : Loop.WhileAll (parcpy_loop1 dst src (bv n) (bv ct)) (hp, 0#64)
+      (fun st => parcpy_loop1.Safe dst src (bv n) (bv ct) st) := by
+    refine Loop.WhileAll.of_inv (fun st => Heap.Same hp st.1 ∧ ∃ i, st.2 = bv i ∧ i ≤ n + ct)
+      ⟨Heap.Same.refl _, 0, rfl, by omega⟩ ?_ ?_
+    · rintro ⟨X, iv⟩ s' ⟨hsame, i, hi, hile⟩ hstep
+      simp only at hi hsame
+      subst hi
+      rw [parcpy_step _ _ _ _ _ _ hn8' hct'] at hstep
+      by_cases hlt : bv i < bv n
+      · rw [if_pos hlt] at hstep
+        injection hstep with hstep
+        injection hstep with _ hstep
+        rw [← hstep]
+        have hin : i < n := by rwa [lt_bv _ _ (by omega) (by omega)] at hlt
+        exact ⟨hsame.trans (Heap.Same.copy _ _ _ _), i + ct, bv_add _ _, by omega⟩
+      · rw [if_neg hlt] at hstep
+        injection hstep with hstep
+        injection hstep with hb _
+        exact absurd hb (by decide)
+    · rintro ⟨X, iv⟩ ⟨hsame, i, hi, hile⟩
+      simp only at hi hsame
+      subst hi
+      unfold parcpy_loop1.Safe
+      zeta_goal
+      by_cases hlt : bv i < bv n
+      · have hin : i < n := by rwa [lt_bv _ _ (by omega) (by omega)] at hlt
+        have hgoal : X.CopyOK (dst.add (bv i).toNat) (src.add (bv i).toNat) (min ((bv n).toNat - (bv i).toNat) (bv ct).toNat) := by
+          rw [bv_toNat n (by omega), bv_toNat i (by omega), bv_toNat ct (by omega)]
+          have hL : i + min (n - i) ct ≤ n := by omega
+          exact ⟨RangeOK_add (by rw [hsame.2]; omega), RangeOK_add (by rw [hsame.2]; omega), Or.inr (Or.inl hne)⟩
+        chunk_len_simp (bv n) (bv i) (bv ct) hn8' hct' hlt <;> exact hgoal
+      · chunk_exit_simp (bv n) (bv i) hlt
   unfold parcpy.Safe
   zeta_goal
-  rw [hclamp, hchunk]
-  refine Loop.WhileAll.of_inv (fun st => Heap.Same hp st.1 ∧ ∃ i, st.2 = bv i ∧ i ≤ n + ct)
-    ⟨Heap.Same.refl _, 0, rfl, by omega⟩ ?_ ?_
-  · rintro ⟨X, iv⟩ s' ⟨hsame, i, hi, hile⟩ hstep
-    simp only at hi hsame
-    subst hi
-    unfold parcpy_loop1 at hstep
-    dsimp only at hstep
-    by_cases hlt : decide (bv i < bv n) = true
-    · rw [if_pos hlt] at hstep
-      injection hstep with hstep
-      injection hstep with _ hstep
-      rw [← hstep]
-      have hin : i < n := by
-        have := of_decide_eq_true hlt
-        rwa [lt_bv _ _ (by omega) (by omega)] at this
-      exact ⟨hsame.trans (Heap.Same.copy _ _ _ _), i + ct, bv_add _ _, by omega⟩
-    · rw [if_neg hlt] at hstep
-      injection hstep with hstep
-      injection hstep with hb _
-      exact absurd hb (by decide)
-  · rintro ⟨X, iv⟩ ⟨hsame, i, hi, hile⟩
-    simp only at hi hsame
-    subst hi
-    unfold parcpy_loop1.Safe
-    zeta_goal
-    intro hlt
-    have hin : i < n := by
-      have := of_decide_eq_true hlt
-      rwa [lt_bv _ _ (by omega) (by omega)] at this
-    have hsub : bv n - bv i = bv (n - i) := bv_sub _ _ (by omega) (by omega)
-    have hlen : (if decide (bv (n - i) < bv ct) = true then bv (n - i) * 8#64 else bv ct * 8#64).toNat / 8 =
-        (if n - i < ct then n - i else ct) := by
-      have : decide (bv (n - i) < bv ct) = decide (n - i < ct) := by
-        rw [decide_eq_decide, lt_bv _ _ (by omega) (by omega)]
-      rw [this]
-      by_cases h : n - i < ct
-      · simp only [h, decide_true, if_true]; exact words_bv _ (by omega)
-      · simp only [h, decide_false, Bool.false_eq_true, if_false]; exact words_bv _ (by omega)
-    rw [hsub, hlen, bv_toNat i (by omega)]
-    have hL : i + (if n - i < ct then n - i else ct) ≤ n := by
-      by_cases h : n - i < ct
-      · rw [if_pos h]; omega
-      · rw [if_neg h]; omega
-    exact ⟨RangeOK_add (by rw [hsame.2]; omega), RangeOK_add (by rw [hsame.2]; omega), Or.inr (Or.inl hne)⟩
+  -- the chunk length the function computes is `chunkBV`, whatever the spelling of the clamp
+  have hloop' := hloop
+  rw [← hchunk] at hloop'
+  unfold chunkBV at hloop'
+  revert hloop'
+  chunk_top nt <;> exact fun h => h
 
 /-! ### `NTT_iters` for size 1 -/
 
